@@ -10,10 +10,14 @@ ID = "C02"
 MODULE = "JmesVerif.Props.C02"
 THEOREMS = ["C02_sort", "C02_sort_perm", "C02_sort_sorted", "C02_sort_stable", "C02_sort_by", "C02_max_by", "C02_min_by", "C02_max", "C02_min",
             "C02_merge", "C02_length_codepoints", "C02_reverse_codepoints", "C02_keys_values", "C02_to_number", "C02_avg_empty", "C02_avg",
-            "C02_map_length", "C02_expref_once_per_element", "C02_not_null", "C02_contains", "C02_starts_with", "C02_ends_with", "C02_join", "C02_abs", "C02_floor", "C02_ceil", "C02_add_ieee", "C02_div_ieee", "C02_int_exact", "C02_sum_ints", "C02_avg_ints", "C02_sum_step"]
+            "C02_map_length", "C02_expref_once_per_element", "C02_not_null", "C02_contains", "C02_starts_with", "C02_ends_with", "C02_join", "C02_abs", "C02_floor", "C02_ceil", "C02_add_ieee", "C02_div_ieee", "C02_int_exact", "C02_sum_ints", "C02_avg_ints", "C02_sum_step",
+            "C02_every_builtin_meets_spec", "C02_every_pure_builtin_meets_spec", "C02_evalRef_is_interp", "C02_valid_call_outcomes",
+            "C02_valid_call_outcomes_wellformed", "C02_to_number_padded_deviation"]
 TRUSTED_BASE = [
     "Lean 4.33 kernel; axioms propext, Classical.choice, Quot.sound only",
     "hand-written model of the 26 builtins (Model/Interp.lean; slice::sort modelled as a stable merge sort) tied to the code by the `eval` stream of this run",
+    "Spec/Functions.lean: the JMESPath function specification as one relation over all 26 builtins (relational for sort/sort_by/max/min/max_by/"
+    "min_by/merge/keys/values/map/sum/avg/contains/…, written independently of the model's function bodies), the statement C02_every_builtin_meets_spec is about",
     "tools/fnspec.py: reference semantics of the builtins written from the JMESPath function specification (arithmetic on IEEE doubles via "
     "Python floats), the independent oracle for every generated call",
 ]
